@@ -25,6 +25,10 @@ def cases(tier, rng, run):
     for _ in range(6000 if tier == "quick" else 100000):
         c = gen_ctx.gen_ctx(rng)
         out.append(Case(c.rand_call(rng, styles=("pos", "kw", "mixed", "kwonly", "posonly"), omit_p=0.5), "call", {"ctx": c}))
+    # a name bound in one way and met again in another, zero sizes included (exhaustive small family)
+    for c in gen_ctx.rebinding_contexts():
+        out.append(Case(c.ctx_line(), "rebind", {"ctx": c}))
+        out.append(Case(c.call_line("func", "pos"), "rebind", {"ctx": c}))
     return out
 
 
